@@ -559,8 +559,12 @@ func runC11(w *World, r *Report) {
 		}
 		ok := false
 		why := "no forward call"
-		for _, fw := range callsTo2(f.fn, "."+row.forward) {
+		for _, fd := range deepCalls(f.fn, bySuffix("."+row.forward), deepDepth) {
+			fw := fd.c
 			_, a := callArgs(fw)
+			if len(a) < 3 {
+				continue
+			}
 			// set literal {self: gossiper}
 			mm, isMM := strip(a[2]).(*ssa.MakeMap)
 			selfKey := false
